@@ -1,2 +1,38 @@
-From YV Require Import Spec.RegexSpec.
-Theorem placeholder_c03 : True. Proof. exact I. Qed.
+(* C03 (and the language part of C02): regular-expression strings and `matches` agree with regex
+   semantics.  Spec/RegexSpec.v gives the documented semantics [M] over spans of a buffer (literals,
+   classes, dot, alternation, star, bounded repeats as abbreviations, ^ $ \b \B; greedy and lazy
+   quantifiers denote the same language) and the executable reference [ends]; checks/c03.py and
+   checks/c02.py compare the real scanner with the extracted reference on generated expressions
+   and buffers.  Proofs: Proofs/RegexProofs.v. *)
+From Coq Require Import List Arith NArith Sorting.Sorted.
+From YV Require Import Base.Bytes Spec.RegexSpec Proofs.RegexProofs.
+Import ListNotations.
+
+(* the reference computes exactly the declarative relation, for every expression, buffer and position *)
+Theorem reference_is_semantics : forall buf r i j, (i <= length buf)%nat ->
+  (In j (ends buf r i) <-> M buf r i j).
+Proof. intros buf r i j Hi. exact (proj1 (ends_correct buf r i j Hi)). Qed.
+Print Assumptions reference_is_semantics.
+
+(* string matches: offsets ascending, each once; a length is listed at an offset iff the expression
+   matches the non-empty span of that length starting there *)
+Theorem re_string_matches_exact : forall buf r,
+  StronglySorted lt (map fst (re_matches_all buf r)) /\
+  (forall o len, (0 < len)%nat ->
+     ((exists ls, In (o, ls) (re_matches_all buf r) /\ In len ls) <-> M buf r o (o + len))).
+Proof. exact re_string_matches_exact_proof. Qed.
+Print Assumptions re_string_matches_exact.
+
+(* the `matches` operator: true exactly when the expression matches somewhere in the operand *)
+Theorem matches_operator_exact : forall buf r,
+  re_matches_somewhere buf r = true <-> exists o j, (o <= length buf)%nat /\ M buf r o j.
+Proof. exact matches_operator_exact_proof. Qed.
+Print Assumptions matches_operator_exact.
+
+Example regex_example :
+  let r := RCat (RSet (CByte 97)) (RCat (RStar (RSet (CByte 98))) (RSet (CByte 99))) in   (* ab*c *)
+  re_matches_all [120; 97; 98; 98; 99; 97; 99]%N r = [(1, [4]); (5, [2])] /\
+  re_matches_somewhere [97; 99]%N (RCat r REnd) = true.
+Proof. vm_compute. split; reflexivity. Qed.
+(* not proved (correspondence only): that the bytecode emitted by re.c and the fiber VM of re.c accept
+   exactly this language (emit_sound_complete, vm_sound/vm_complete of the design). *)
